@@ -25,12 +25,26 @@ def cases(rng, tier):
     N = 120 if tier == "quick" else 1500
     for _ in range(N):
         r0 = rng.random()
-        p = cutfind.gen_dense(rng, tier, exact=rng.random() < 0.5) if r0 < 0.3 else cutfind.gen_case(rng, tier, restricted=rng.random() < 0.6)
+        if r0 < 0.25:
+            p = cutfind.gen_dense(rng, tier, exact=rng.random() < 0.5)
+        elif r0 < 0.5:
+            p = cutfind.gen_repeat(rng, tier)
+        else:
+            p = cutfind.gen_case(rng, tier, restricted=rng.random() < 0.6)
         p["width"] = max(1, p["width"])
         p["max_gamma"] = max(1.0, p["max_gamma"])
         if p["max_backjumps"] is not None and p["max_backjumps"] < 0:
             p["max_backjumps"] = 0
         yield ("find_cuts", p)
+    # wide circuits: a subcircuit of more than 127 wires (counters must not wrap)
+    for n, W, blocks in ((132, 130, None), (150, 140, None), (141, 128, 70)):
+        if blocks is None:
+            instrs = [{"name": "cx", "qubits": [i, i + 1]} for i in range(n - 1)]
+        else:
+            instrs = ([{"name": "cx", "qubits": [i, i + 1]} for i in range(blocks - 1)] + [{"name": "cx", "qubits": [i, i + 1]} for i in range(blocks, n - 1)]
+                      + [{"name": "cx", "qubits": [blocks - 1, blocks]}])
+        yield ("find_cuts", {"nq": n, "instrs": instrs, "seed": rng.randrange(1 << 30), "max_gamma": 1024.0, "max_backjumps": 10000,
+                             "gate_lo": True, "wire_lo": rng.random() < 0.5, "width": W, "exact": True})
     if tier == "thorough":
         pairs = [(a, b) for a in range(3) for b in range(3) if a != b]
         for L in (1, 2, 3):
@@ -70,11 +84,23 @@ def oracle(kind, payload):
     if "error" in real or "mismatch" in real["ok"]:
         return None  # refusals and malformed outputs are C07's business
     gs = cutfind.gammas(payload)
+    r = real["ok"]
+    # whatever the size: a result without any cut is only right if the uncut circuit already meets the width limit
+    gates2 = cutfind.two_qubit_gates(payload)
+    if all(len(g["qubits"]) == 2 for _, g in gates2):
+        uncut = max(cutfind.widths_of_plan(payload["nq"], gates2, ["leave"] * len(gates2)))
+        if uncut > payload["width"] and r["overhead"] < 1 + 1e-9:
+            return f"no cut was made (overhead {r['overhead']}) although the uncut circuit needs {uncut} qubits, limit {payload['width']}"
+        why = cutfind.analyse_output(payload, r, gs)
+        if why:
+            return why
     best, plan = cutfind.brute_force(payload, gs)
     if best == "skip" or best is None:
         return None
-    r = real["ok"]
     opt = best * best
+    if r["overhead"] < opt * (1 - 1e-9):
+        return (f"reported overhead {r['overhead']} is below {opt}, the minimum over all plans that meet the width limit {payload['width']}: "
+                f"the returned cuts cannot be feasible")
     if r["minimum_reached"] and r["overhead"] > opt * (1 + 1e-9):
         return (f"minimum_reached=True but overhead {r['overhead']} > {opt} of the feasible plan {plan} "
                 f"(width {payload['width']}, max_gamma {payload['max_gamma']}, max_backjumps {payload['max_backjumps']}, seed {payload['seed']})")
